@@ -137,11 +137,19 @@ func encodeRSAKey(e *jsonutils.Encoder, priv *rsa.PrivateKey, pub *rsa.PublicKey
 
 		// precomputed values
 		if priv.Precomputed.Dp != nil {
+			if priv.Precomputed.Dq == nil || priv.Precomputed.Qinv == nil {
+				e.SaveError(errors.New("jwk: incomplete precomputed values of rsa private key"))
+				return
+			}
 			e.SetBigInt("dp", priv.Precomputed.Dp)
 			e.SetBigInt("dq", priv.Precomputed.Dq)
 			e.SetBigInt("qi", priv.Precomputed.Qinv)
 			oth := make([]map[string]string, 0, len(priv.Precomputed.CRTValues))
 			for _, v := range priv.Precomputed.CRTValues {
+				if v.Exp == nil || v.Coeff == nil || v.R == nil {
+					e.SaveError(errors.New("jwk: incomplete precomputed values of rsa private key"))
+					return
+				}
 				u := make(map[string]string)
 				u["d"] = e.Encode(v.Exp.Bytes())
 				u["t"] = e.Encode(v.Coeff.Bytes())
